@@ -117,7 +117,7 @@ func checkContained(c *vkit.Collector, kind string, b boundsOf, p s2.Point, repl
 		if lvl, ok := replay["level"]; ok && lvl == 0 {
 			k += "(level0)"
 		}
-		if rectExcess(b.rect, ll) > 1e-12 {
+		if rectExcess(b.rect, ll) > 1e-12 && k != "RectBounder.latBudget(near-pole)" {
 			k += "(excess>1e-12)"
 		}
 		violate(c, k, "a contained point's computed lat/lng is outside RectBound()", rep())
@@ -320,10 +320,10 @@ func searchCellUnion(c *vkit.Collector, g *gen, cu s2.CellUnion) {
 
 // ---- regions not tied to a [T] loop: polygons, polylines, sub-regions, hulls ----
 func runSearch(c *vkit.Collector, g *gen, budget int) {
-	searchPolygons(c, g, 25*budget)
-	searchPolylines(c, g, 60*budget)
-	searchSubregions(c, g, 120*budget)
-	searchHull(c, g, 120*budget)
+	searchPolygons(c, g, 60*budget)
+	searchPolylines(c, g, 200*budget)
+	searchSubregions(c, g, 400*budget)
+	searchHull(c, g, 300*budget)
 	oracleRun(c)
 }
 
